@@ -833,7 +833,14 @@ class HttpStreamSession:
             return
         with contextlib.suppress(Exception):
             reader = _open_response_stream(resp.content, resp.status_code, self._ipc_validation)
-            _drain_stream(reader)
+            # Deliver the client logs the server's on_cancel hook emitted; anything
+            # else in the (best-effort) cancel response is ignored.
+            while True:
+                try:
+                    batch, custom_metadata = reader.read_next_batch_with_custom_metadata()
+                except StopIteration:
+                    break
+                _dispatch_log_or_error(batch, custom_metadata, self._on_log)
 
     def __enter__(self) -> HttpStreamSession:
         """Enter the context."""
